@@ -57,7 +57,7 @@ class Config(dict):
             return ["-fprofile-instr-generate", "-fcoverage-mapping"]
         raise HarnessError("unknown instr " + i)
 
-    def cflags(self):
+    def cflags(self, instrument=True):
         f = [self["opt"], "-g1", "-std=gnu11", "-fno-strict-aliasing", "-Wno-error", "-w", "-Werror=implicit-function-declaration"]
         if self["simd"] == "native":
             f += NATIVE_SIMD.split()
@@ -66,7 +66,7 @@ class Config(dict):
         if self["ndebug"]:
             f += ["-DNDEBUG"]
         f += ["-D" + GUARD] + ["-D" + d for d in self["defs"]]
-        return f + self.instr_flags()
+        return f + (self.instr_flags() if instrument else [])
 
 
 MINCACHE = dict(L1=4096, L2=32768, L3=65536)
@@ -204,13 +204,13 @@ def _lib_locked(cfg, repo, d):
     return d
 
 
-def harness(cfg, sources, name, extra_cflags=(), extra_ldflags=(), repo=None, link_lib=True, extra_hash=""):
+def harness(cfg, sources, name, extra_cflags=(), extra_ldflags=(), repo=None, link_lib=True, extra_hash="", instrument_harness=True):
     """Compile harness sources (paths relative to /verif) against the library built for cfg."""
     repo = repo or REPO
     L = lib(cfg, repo)
     h = hashlib.sha256()
     h.update(L.encode()); h.update(name.encode()); h.update(" ".join(extra_cflags).encode()); h.update(" ".join(extra_ldflags).encode())
-    h.update(extra_hash.encode())
+    h.update(extra_hash.encode()); h.update(b"instr1" if instrument_harness else b"instr0")
     hdir = os.path.join(VERIF, "harness")
     deps = sorted(set([os.path.join(VERIF, s) for s in sources] +
                       [os.path.join(dp, f) for sub in ("harness", "fsx", "icb") for dp, _, fs in os.walk(os.path.join(VERIF, sub)) for f in fs if f.endswith((".h", ".c", ".inc"))]))
@@ -219,17 +219,20 @@ def harness(cfg, sources, name, extra_cflags=(), extra_ldflags=(), repo=None, li
     d = os.path.join(CACHE, "bin-" + h.hexdigest()[:24])
     exe = os.path.join(d, name)
     with _lock(d):
-        return _harness_locked(cfg, sources, name, extra_cflags, extra_ldflags, L, hdir, d, exe, link_lib)
+        return _harness_locked(cfg, sources, name, extra_cflags, extra_ldflags, L, hdir, d, exe, link_lib, instrument_harness)
 
 
-def _harness_locked(cfg, sources, name, extra_cflags, extra_ldflags, L, hdir, d, exe, link_lib):
+def _harness_locked(cfg, sources, name, extra_cflags, extra_ldflags, L, hdir, d, exe, link_lib, instrument_harness=True):
     if os.path.exists(exe):
         os.utime(d)
         return exe
     tmp = d + ".tmp%d-%s" % (os.getpid(), uuid.uuid4().hex[:8])
     shutil.rmtree(tmp, ignore_errors=True)
     os.makedirs(tmp)
-    cmd = ([cfg["cc"]] + cfg.cflags() + list(extra_cflags) + ["-I" + L, "-I" + hdir, "-I/usr/include/libpng16"] +
+    hflags = cfg.cflags(instrument_harness)
+    if not instrument_harness:
+        hflags = [f for f in hflags if f != "-fopenmp"]  # ICB: the harness provides its own GOMP runtime, libgomp must not be linked
+    cmd = ([cfg["cc"]] + hflags + list(extra_cflags) + ["-I" + L, "-I" + hdir, "-I/usr/include/libpng16"] +
            [os.path.join(VERIF, s) for s in sources] + (["%s/libm4ri.a" % L] if link_lib else []) +
            ["-o", os.path.join(tmp, name), "-lm", "-lpng16", "-lz"] + list(extra_ldflags))
     _run(cmd)
